@@ -349,8 +349,10 @@ func (tree *Rtree) Delete(obj geom.Geom) bool {
 	tree.condenseTree(n)
 	tree.size--
 
-	if !tree.root.leaf && len(tree.root.entries) == 1 {
+	for !tree.root.leaf && len(tree.root.entries) == 1 {
 		tree.root = tree.root.entries[0].child
+		tree.root.parent = nil
+		tree.height--
 	}
 
 	return true
